@@ -21,14 +21,16 @@ func init() {
 // ---------------------------------------------------------------- implementation side
 
 const c07Prelude = `
-var O=[], L=[], R=[];
-var NAMES=['a','b','c'];
+var O=[], L=[], R=[], SP=[];
+var NAMES=['a','b','c','constructor','prototype','length','name','caller','message','stack','lastIndex','source','global','ignoreCase','multiline'];
 var hop=Object.prototype.hasOwnProperty, pie=Object.prototype.propertyIsEnumerable;
 function mk(k){ return function(v){ if(arguments.length>0){ L.push(k+'.'+O.indexOf(this)+'.'+V(v)); } return 100+10*O.indexOf(this)+k; }; }
 var F=[mk(0),mk(1),mk(2)];
-function V(x){ return x===undefined?'0': x!==x?'3': x===0?(1/x>0?'1':'2'): (typeof x==='number'?String(x+3):'?'+typeof x); }
+function V(x){ if(x===undefined) return '0'; if(typeof x==='number') return x!==x?'3': x===0?(1/x>0?'1':'2'): String(x+3);
+  if(x===true) return '996'; if(x===false) return '995'; if(typeof x==='string') return '997';
+  for(var i=0;i<SP.length;i++){ if(SP[i][1]===x) return String(SP[i][0]); } return '997'; }
 function B(x){ return x===true?'1':x===false?'0':'?'; }
-function Fs(f){ return f===undefined?'u':String(F.indexOf(f)); }
+function Fs(f){ if(f===undefined) return 'u'; var i=F.indexOf(f); return String(i<0?900:i); }
 function Dsc(o,n){ var d=Object.getOwnPropertyDescriptor(o,n); if(d===undefined) return '-';
   var hv=hop.call(d,'value'), hw=hop.call(d,'writable'), hg=hop.call(d,'get'), hs=hop.call(d,'set');
   var ec=B(d.enumerable)+B(d.configurable);
@@ -38,7 +40,8 @@ function Dsc(o,n){ var d=Object.getOwnPropertyDescriptor(o,n); if(d===undefined)
   return '?'+B(hv)+B(hw)+B(hg)+B(hs); }
 function NL(l){ if(l.length==0) return '-'; var r=[]; for(var i=0;i<l.length;i++) r.push(NAMES.indexOf(l[i])); return r.join('.'); }
 function Obs(i){ var o=O[i]; var ks=Object.keys(o), ns=Object.getOwnPropertyNames(o), fi=[]; for(var k in o) fi.push(k);
-  var per=[]; for(var j=0;j<3;j++){ var n=NAMES[j]; per.push(V(o[n])+'/'+B(n in o)+B(hop.call(o,n))+B(pie.call(o,n))+'/'+G(o,n)); }
+  var on=[NAMES[0],NAMES[1],NAMES[2]]; for(var j=0;j<ns.length;j++){ if(NAMES.indexOf(ns[j])!==0&&NAMES.indexOf(ns[j])!==1&&NAMES.indexOf(ns[j])!==2) on.push(ns[j]); }
+  var per=[]; for(var j=0;j<on.length;j++){ var n=on[j]; per.push(V(o[n])+'/'+B(n in o)+B(hop.call(o,n))+B(pie.call(o,n))+'/'+G(o,n)); }
   return B(Object.isExtensible(o))+B(Object.isSealed(o))+B(Object.isFrozen(o))+':'+NL(ks)+':'+NL(ns)+':'+NL(fi)+':'+per.join(','); }
 function Step(f){ var out; L=[]; try{ out=f(); }catch(e){ out=(e instanceof TypeError)?'T':'E:'+e.name; }
   var r=[out, L.length?L.join(','):'-']; for(var i=0;i<O.length;i++) r.push(Obs(i)); R.push(r.join('|')); }
@@ -99,7 +102,7 @@ func c07san(s string) string {
 	return s
 }
 
-var c07Names = []string{"a", "b", "c"}
+var c07Names = []string{"a", "b", "c", "constructor", "prototype", "length", "name", "caller", "message", "stack", "lastIndex", "source", "global", "ignoreCase", "multiline"}
 
 func c07ValLit(code string) string {
 	n, err := strconv.Atoi(code)
@@ -198,7 +201,7 @@ func c07Entries(ents []string, alt bool) string {
 // c07Script renders one history as a JavaScript program.
 func c07Script(toks []string) string {
 	var b strings.Builder
-	b.WriteString("O=[];L=[];R=[];\n")
+	b.WriteString("O=[];L=[];R=[];SP=[];\n")
 	for i, tok := range toks {
 		segs := strings.Split(tok, "/")
 		f := strings.Split(segs[0], ".")
@@ -207,6 +210,39 @@ func c07Script(toks []string) string {
 		body := ""
 		strict := ""
 		switch f[0] {
+		case "N":
+			switch f[1] {
+			case "fproto":
+				switch i % 3 {
+				case 0:
+					body = "var f=function(p,q){};"
+				case 1:
+					body = "function f(p,q){}"
+				default:
+					body = "var f=new Function('p','q','');"
+				}
+				body += "SP.push([1000+10*O.length,f]);O.push(f.prototype);return 'ok';"
+			case "func":
+				switch i % 3 {
+				case 0:
+					body = "var f=function(p,q){};"
+				case 1:
+					body = "function f(p,q){}"
+				default:
+					body = "var f=new Function('p','q','');"
+				}
+				body += "SP.push([1000+10*O.length+2,f.prototype]);O.push(f);return 'ok';"
+			case "terr":
+				body = "O.push(new TypeError('m'));return 'ok';"
+			case "err":
+				body = "O.push(new Error('m'));return 'ok';"
+			case "regexp":
+				body = "O.push(/x/g);return 'ok';"
+			case "date":
+				body = "O.push(new Date(0));return 'ok';"
+			default:
+				panic("bad kind " + tok)
+			}
 		case "P":
 			if f[1] == "1" {
 				strict = "'use strict';"
@@ -254,7 +290,8 @@ func c07Script(toks []string) string {
 			panic("bad op " + tok)
 		}
 		guard := ""
-		if f[0] == "C" {
+		if f[0] == "N" {
+		} else if f[0] == "C" {
 			if f[1] != "-" {
 				guard = "if(O[" + f[1] + "]===undefined)return 'bad';"
 			}
@@ -286,6 +323,14 @@ func implC07(line string) string {
 }
 
 // ---------------------------------------------------------------- generator
+
+var c07Kinds = []string{"fproto", "func", "terr", "err", "regexp", "date"}
+
+// own property names (codes) of each runtime-created kind, plus "a"
+var c07KindNames = map[string][]string{
+	"fproto": {"3", "0"}, "func": {"6", "5", "7", "4", "0"}, "terr": {"8", "9", "0"}, "err": {"8", "9", "6", "0"},
+	"regexp": {"12", "13", "14", "10", "11", "0"}, "date": {"0"},
+}
 
 var c07Vals = []string{"0", "1", "2", "3", "4", "5", "6"}
 
@@ -375,6 +420,11 @@ func c07RandHistory(c *h.Ctx, r *h.Rng) string {
 	var toks []string
 	nobj := 0
 	create := func() {
+		if r.Chance(30) {
+			toks = append(toks, "N."+c07pick(r, c07Kinds...))
+			nobj++
+			return
+		}
 		p := "-"
 		if nobj > 0 && r.Chance(70) {
 			p = strconv.Itoa(r.Intn(nobj))
@@ -390,6 +440,9 @@ func c07RandHistory(c *h.Ctx, r *h.Rng) string {
 	for i := 0; i < steps; i++ {
 		a := strconv.Itoa(r.Intn(nobj))
 		n := strconv.Itoa(r.Intn(3))
+		if r.Chance(35) {
+			n = strconv.Itoa(3 + r.Intn(len(c07Names)-3))
+		}
 		switch x := r.Intn(100); {
 		case x < 24:
 			toks = append(toks, "P."+c07pick(r, "0", "1")+"."+a+"."+n+"."+c07pick(r, c07Vals...))
@@ -489,6 +542,39 @@ func genC07(c *h.Ctx) {
 				c.Add(prefix+" X."+strict+".0.0", "product:delete")
 				c.Add(prefix+" F.0 P."+strict+".0.0.6 X."+strict+".0.0", "product:freeze")
 				c.Add(prefix+" S.0 P."+strict+".0.0.6 X."+strict+".0.0", "product:seal")
+			}
+		}
+	}
+	// (2b) runtime-created start objects: every own name x a grid of descriptors, and delete / put / freeze / seal / preventExtensions
+	for _, k := range c07Kinds {
+		prefix := "h N." + k
+		c.Add(prefix, "native:create")
+		c.Add(prefix+" F.0", "native:freeze")
+		c.Add(prefix+" S.0", "native:seal")
+		c.Add(prefix+" E.0", "native:preventExt")
+		c.Add(prefix+" N."+k+" C.0", "native:chain")
+		for _, n := range c07KindNames[k] {
+			for _, strict := range []string{"0", "1"} {
+				c.Add(prefix+" X."+strict+".0."+n, "native:delete")
+				c.Add(prefix+" P."+strict+".0."+n+".4", "native:put")
+				c.Add(prefix+" C.0 P."+strict+".1."+n+".4 X."+strict+".1."+n, "native:put-inherited")
+				c.Add(prefix+" E.0 X."+strict+".0."+n+" P."+strict+".0."+n+".4", "native:delete-put-nonext")
+			}
+			for _, e := range tri {
+				for _, cc := range tri {
+					for _, w := range tri {
+						for _, v := range []string{"-", "4", "5", "1"} {
+							for _, g := range []string{"-", "u", "0"} {
+								for _, s := range []string{"-", "1"} {
+									if !c.Thorough() && r.Intn(6) != 0 {
+										continue
+									}
+									c.Add(prefix+" D.0."+n+"."+strings.Join([]string{e, cc, w, v, g, s}, "."), "native:define")
+								}
+							}
+						}
+					}
+				}
 			}
 		}
 	}
